@@ -19,6 +19,7 @@
 #include "efuns/call_out.h"
 #include <limits.h>
 #include "port/timer.h"
+#include "port/sync.h"
 #include "async/async_runtime.h"
 
 #ifdef HAVE_TERMIOS_H
@@ -28,7 +29,11 @@
 /* The 'current_time' is updated at every heart beat. */
 time_t current_time = 0;
 
+/* Set by the heart beat timer THREAD, polled and cleared by the backend thread:
+ * always accessed through HEART_BEAT_FLAG() / SET_HEART_BEAT_FLAG() (atomic). */
 int heart_beat_flag = 0;
+#define HEART_BEAT_FLAG()       platform_atomic_load_int(&heart_beat_flag)
+#define SET_HEART_BEAT_FLAG(v)  platform_atomic_store_int(&heart_beat_flag, (v))
 
 object_t *current_heart_beat;
 
@@ -64,7 +69,7 @@ int (*verif_backend_cycle_hook) (void) = 0;
  */
 static void heartbeat_timer_callback(void) {
   async_runtime_t *reactor = get_async_runtime();
-  heart_beat_flag = 1;
+  SET_HEART_BEAT_FLAG(1);
   if (reactor)
     async_runtime_wakeup(reactor);
 }
@@ -326,7 +331,7 @@ void backend () {
             }
         }
 
-      if (heart_beat_flag || has_pending_commands)
+      if (HEART_BEAT_FLAG() || has_pending_commands)
         {
           /* When heart beat is active or commands pending, do not wait in poll */
           timeout.tv_sec = 0;
@@ -369,7 +374,7 @@ void backend () {
        * The heart_beat_flag is set in the heartbeat timer and cleared 
        * when call_heart_beat() is called.
        */
-      if (heart_beat_flag)
+      if (HEART_BEAT_FLAG())
         call_heart_beat ();
 #ifdef NEOLITH_VERIF
       if (verif_backend_cycle_hook && verif_backend_cycle_hook ())
@@ -517,7 +522,7 @@ static float perc_hb_probes = 100.0;	/* decaying avge of how many complete */
 static void call_heart_beat () {
 
   object_t *ob;
-  heart_beat_flag = 0;
+  SET_HEART_BEAT_FLAG(0);
   time (&current_time);
   opt_trace (TT_BACKEND|1, "tick: current_time=%u", current_time);
   current_interactive = 0;
@@ -528,7 +533,7 @@ static void call_heart_beat () {
       heart_beat_t *curr_hb;
       num_hb_calls++;
       heart_beat_index = 0;
-      while (!heart_beat_flag)
+      while (!HEART_BEAT_FLAG())
         {
           ob = (curr_hb = &heart_beats[heart_beat_index])->ob;
           /* is it time to do a heart beat ? */
